@@ -79,7 +79,7 @@ def bond_tokens(sec, a, b):
     return [str(a), str(b), '1']
 
 
-def render(n, edges, assign, num='seq', res='one', order=(0, 1, 2), noise='none', attached=None):
+def render(n, edges, assign, num='seq', res='one', order=(0, 1, 2), noise='none', attached=None, indented=None):
     """The topology text of one case. edges: 0-based pairs; assign[k]: section of edge k."""
     nr = numbering(num, n)
     rows = atom_rows(n, res)
@@ -190,6 +190,9 @@ def render(n, edges, assign, num='seq', res='one', order=(0, 1, 2), noise='none'
             out += extra
         if noise == 'preproc':
             out += ['#ifdef POSRES', '#include "posre.itp"', '#endif']
+    if indented:                          # directives with leading white space after the first line of a section
+        at = out.index('[ %s ]' % indented) + 2
+        out[at:at] = ['  #ifdef POSRES', '\t#include "posre.itp"', '  #endif']
     return '\n'.join(out) + '\n'
 
 
@@ -220,7 +223,7 @@ class C15(Check):
     level = 'exploration'
     rule = ('case = one rendered topology file = (labelled graph, edge -> section assignment, atom numbering, '
             'residue layout, section order, noise template) or (large family, size) or (line kind with an '
-            'attached comment); distinct by descriptor; non-trivial = the file lists at least one pair, so the '
+            'attached comment / section holding an indented directive); distinct by descriptor; non-trivial = the file lists at least one pair, so the '
             'number -> position translation and the symmetric connect ran')
     technique = ('exhaustive enumeration of all labelled graphs x file renderings, each read by the real '
                  'read_topology / MoleculeTop / are_connected / copy and by an independent reference reader')
@@ -233,7 +236,7 @@ class C15(Check):
                   'unordered position pairs; sections other than bonds/constraints/pairs (angles, exclusions) must not '
                   'contribute; "equal" copy = the library\'s own == plus field-wise equality; not covered: self-bonds, '
                   'pairs naming an atom number absent from [ atoms ], several molecules per file, CRLF line ends, '
-                  'thorough tier at 5 atoms varies residue/order/noise one at a time around the defaults')
+                  'the thorough tier at 5 atoms varies numbering/residue/order/noise one at a time around the defaults')
     assumptions = ['files are rendered from 6 noise templates; other layouts of comments / preprocessor lines are not covered',
                    'atom numberings: 1..n, increasing with gaps (10, 20, 35, 55, 80), offset 101.., and n..1 for the '
                    'reversed large chain']
@@ -244,8 +247,8 @@ class C15(Check):
                        'numberings': list(NUMBERINGS), 'residue_layouts': list(RESIDUES),
                        'section_orders': [[SECS[i] for i in o] for o in ORDERS], 'noise_templates': list(NOISES),
                        'large_sizes': list(BIG_N), 'large_families': list(BIG_FAMILIES),
-                       'attached_comment_line_kinds': list(ATTACHED),
-                       'five_atom_product': 'numbering x (residue, order, noise: at most one off default)'}
+                       'attached_comment_line_kinds': list(ATTACHED), 'indented_directive_sections': list(ATTACHED),
+                       'five_atom_product': 'numbering, residue, order, noise: at most one off its default (12 renderings per graph and assignment)'}
         u = [{'k': 'small', 'n': n, 'lo': 0, 'hi': 1 << (n * (n - 1) // 2)} for n in (1, 2, 3)]
         u += [{'k': 'small', 'n': 4, 'lo': lo, 'hi': lo + 1} for lo in range(64)]
         if nmax >= 5:
@@ -258,7 +261,7 @@ class C15(Check):
                 return x['n'] * 30
             if x['k'] != 'small':
                 return 0
-            per = 30 if x['n'] >= 5 else 162
+            per = 12 if x['n'] >= 5 else 162
             return per * sum(len(list(assignments(bin(m).count('1')))) for m in range(x['lo'], x['hi']))
         u.sort(key=cost, reverse=True)
         return u
@@ -276,6 +279,8 @@ class C15(Check):
         else:
             for kind in ATTACHED:
                 yield {'k': 'attached', 'kind': kind}
+            for kind in ATTACHED:
+                yield {'k': 'indented', 'kind': kind}
 
     # ------------------------------------------------------------------
     def check_case(self, case, R, seed):
@@ -291,11 +296,23 @@ class C15(Check):
         if case['k'] == 'attached':
             kind = case['kind']
             assign = [max(ATTACHED.index(kind) - 2, 0)] * 2
+            base, _ = examine(render(3, [(0, 1), (1, 2)], assign), direct=True)
             text = render(3, [(0, 1), (1, 2)], assign, attached=kind)
             sigs, outcome = examine(text, direct=True)
+            if base:                      # already wrong without the comment: the other families report it
+                sigs = []
             R.case(case, nontrivial=True, outcome=outcome, cls='attached/%s' % kind)
             for sig, det in sigs:
                 R.violation('comment-attached-to-token/%s/%s' % (kind, sig), case, det)
+            return
+        if case['k'] == 'indented':
+            kind = case['kind']
+            assign = [max(ATTACHED.index(kind) - 2, 0)] * 2
+            base, _ = examine(render(3, [(0, 1), (1, 2)], assign), direct=True)
+            sigs, outcome = examine(render(3, [(0, 1), (1, 2)], assign, indented=kind), direct=True)
+            R.case(case, nontrivial=True, outcome=outcome, cls='indented/%s' % kind)
+            for sig, det in ([] if base else sigs):
+                R.violation('indented-directive/%s/%s' % (kind, sig), case, det)
             return
         n = case['n']
         edges = [tuple(e) for e in case['edges']]
@@ -303,12 +320,9 @@ class C15(Check):
         if 'noise' in case:
             combos = [(case['num'], case['res'], case['order'], case['noise'])]
         elif n >= 5:
-            combos = []
-            for num in NUMBERINGS:
-                combos.append((num, RESIDUES[0], 0, NOISES[0]))
-                combos += [(num, r, 0, NOISES[0]) for r in RESIDUES[1:]]
-                combos += [(num, RESIDUES[0], o, NOISES[0]) for o in range(1, len(ORDERS))]
-                combos += [(num, RESIDUES[0], 0, z) for z in NOISES[1:]]
+            d = (NUMBERINGS[0], RESIDUES[0], 0, NOISES[0])      # one factor off the default at a time
+            combos = [d] + [(x,) + d[1:] for x in NUMBERINGS[1:]] + [d[:1] + (x,) + d[2:] for x in RESIDUES[1:]]
+            combos += [d[:2] + (o, d[3]) for o in range(1, len(ORDERS))] + [d[:3] + (z,) for z in NOISES[1:]]
         else:
             combos = list(itertools.product(NUMBERINGS, RESIDUES, range(len(ORDERS)), NOISES))
         nontrivial = bool(edges)
